@@ -15,17 +15,24 @@ VARIABLES inst,        \* the law instance
 vars == <<inst, hist, der>>
 
 FFF == <<FALSE, FALSE, FALSE>>
-Flux(fam, scene, ch, lo, hi, full) == [law |-> "flux", fam |-> fam, scene |-> scene, ch |-> ch, lo |-> lo, hi |-> hi, full |-> full, edges |-> <<>>]
-Circ(fam, scene, ch, edges) == [law |-> "circ", fam |-> fam, scene |-> scene, ch |-> ch, lo |-> Zero3, hi |-> Zero3, full |-> FFF, edges |-> edges]
-Premise(i) == IF i.law = "flux" THEN FluxPremise(i.scene, i.ch, i.lo, i.hi, i.full) ELSE CircPremise(i.scene, i.ch, i.edges)
-Expected(i) == IF i.law = "flux" THEN 0 ELSE ExpCirc(i.scene, i.ch, i.edges)
-ClassOf(i) == IF i.law = "flux" THEN [k \in DOMAIN i.scene |-> CutClass(i.scene[k], i.ch, i.lo, i.hi, i.full)]
+NoPt == [kind |-> "", obs |-> Zero3, field |-> "", rho |-> 0]
+Flux(fam, scene, ch, lo, hi, full) == [law |-> "flux", fam |-> fam, scene |-> scene, ch |-> ch, lo |-> lo, hi |-> hi, full |-> full, edges |-> <<>>, pt |-> NoPt]
+Circ(fam, scene, ch, edges) == [law |-> "circ", fam |-> fam, scene |-> scene, ch |-> ch, lo |-> Zero3, hi |-> Zero3, full |-> FFF, edges |-> edges, pt |-> NoPt]
+Point(fam, src, kind, obs, field, rho) == [law |-> "point", fam |-> fam, scene |-> <<src>>, ch |-> CartChart(IdM, Zero3), lo |-> Zero3, hi |-> Zero3, full |-> FFF, edges |-> <<>>,
+                                           pt |-> [kind |-> kind, obs |-> obs, field |-> field, rho |-> rho]]
+PtOf(i) == [kind |-> i.pt.kind, src |-> i.scene[1], obs |-> i.pt.obs, field |-> i.pt.field, rho |-> i.pt.rho]
+Premise(i) == IF i.law = "flux" THEN FluxPremise(i.scene, i.ch, i.lo, i.hi, i.full)
+              ELSE IF i.law = "circ" THEN CircPremise(i.scene, i.ch, i.edges) ELSE PointPremise(PtOf(i))
+Expected(i) == IF i.law = "circ" THEN ExpCirc(i.scene, i.ch, i.edges) ELSE 0
+ClassOf(i) == IF i.law = "point" THEN <<i.pt.kind>> ELSE IF i.law = "flux" THEN [k \in DOMAIN i.scene |-> CutClass(i.scene[k], i.ch, i.lo, i.hi, i.full)]
               ELSE [k \in DOMAIN i.scene |-> IF Lk(i.scene[k], i.ch, i.edges) # 0 THEN "linked"
                                               ELSE IF AwayLoop(i.scene[k], i.ch, i.edges) THEN "away" ELSE "near"]
 Derived(i) == [faces |-> IF i.law = "flux" THEN Faces(i.ch, i.lo, i.hi, i.full) ELSE <<>>,
                brk |-> IF i.law = "flux" THEN CellBreaks(i.scene, i.ch, i.lo, i.hi) ELSE None3,
                ebrk |-> IF i.law = "circ" THEN LoopBreaks(i.scene, i.ch, i.edges) ELSE <<>>,
-               cls |-> ClassOf(i)]
+               cls |-> ClassOf(i),
+               norm |-> IF i.law = "point" THEN PointNorm(PtOf(i)) ELSE <<>>,
+               gross |-> IF i.law = "point" THEN PointGross(PtOf(i)) ELSE 0]
 
 (* ------------------------------------------------------------------------------ building blocks *)
 Rx90 == <<<<1, 0, 0>>, <<0, 0, -1>>, <<0, 1, 0>>>>
@@ -72,6 +79,8 @@ Dip(R, p, m) == Src("Dipole", R, p, <<>>, m, <<>>)
 Cir(A, R, p, I) == Src("Circle", R, p, <<4 * A>>, <<I>>, <<>>)
 SquareV(A) == <<<<2 * A, 2 * A, 0>>, <<-2 * A, 2 * A, 0>>, <<-2 * A, -2 * A, 0>>, <<2 * A, -2 * A, 0>>, <<2 * A, 2 * A, 0>>>>
 HexV(A) == <<<<2 * A, 0, 0>>, <<2 * A, 2 * A, A>>, <<0, 2 * A, 2 * A>>, <<-2 * A, 0, A>>, <<-2 * A, -2 * A, 0>>, <<0, -2 * A, -A>>, <<2 * A, 0, 0>>>>
+\* a closed path along box edges: segments parallel to x, z, y, z, x, y (every axis direction occurs in the local frame)
+StepV(A) == <<<<2 * A, 2 * A, 0>>, <<-2 * A, 2 * A, 0>>, <<-2 * A, 2 * A, 2 * A>>, <<-2 * A, -2 * A, 2 * A>>, <<-2 * A, -2 * A, 0>>, <<2 * A, -2 * A, 0>>, <<2 * A, 2 * A, 0>>>>
 Pol(verts, R, p, I) == Src("Polyline", R, p, <<>>, <<I>>, verts)
 
 (* ----------------------------------------------------------------------------------- C14: flux *)
@@ -87,13 +96,14 @@ RadTags == {"in", "hi", "out", "enc"}
 FluxCylinder == UNION {{CylCell("cylinder", <<Cyl(sc[1], IdM, Zero3, P1)>>, CylChart(IdM, Zero3),
                                 Pos(Iv(rt, 0, 2 * sc[1], sc[2])), f, Iv(zt, -3 * sc[1], 3 * sc[1], sc[2]))
                           : rt \in RadTags, f \in AzIv, zt \in {"in", "hi", "out", "enc"}} : sc \in Scales}
-SegAz(d) == IF Thorough THEN {<<d[4] + 1, d[5] - 1>>, <<d[5] - 1, d[5] + 2>>, <<d[4] - 2, d[4] + 1>>, <<d[5] + 1, d[5] + 2>>, <<d[4] - 1, d[5] + 1>>, <<0, 24>>}
+SegAz(d) == IF Thorough THEN {<<d[4] + 1, d[5] - 1>>, <<d[5] - 1, d[5] + 2>>, <<d[4] - 2, d[4] + 1>>, <<0, 24>>}
             ELSE {<<d[5] - 1, d[5] + 2>>}
+SegScales == IF Thorough THEN {<<1, 1>>, <<5, 1>>, <<50, 1>>, <<1, 100>>} ELSE Scales      \* the segment field costs ~0.2 ms per point
 SegRad == IF Thorough THEN {"in", "hi", "lo", "out"} ELSE {"hi", "lo"}
 SegAx == IF Thorough THEN {"in", "hi", "out"} ELSE {"hi"}
 FluxSegment == UNION {UNION {{CylCell("segment", <<Seg(d, IdM, Zero3, P1)>>, CylChart(IdM, Zero3),
                                 Pos(Iv(rt, d[1], d[2], sc[2])), f, Iv(zt, -(d[3] \div 2), d[3] \div 2, sc[2]))
-                          : rt \in SegRad, f \in SegAz(d), zt \in SegAx} : d \in SegDims(sc[1])} : sc \in Scales}
+                          : rt \in SegRad, f \in SegAz(d), zt \in SegAx} : d \in SegDims(sc[1])} : sc \in SegScales}
 PolIv == {<<2, 5>>, <<0, 12>>, <<0, 3>>}
 SphCell(fam, scene, ch, riv, tiv, fiv) == Flux(fam, scene, ch, <<riv[1], tiv[1], fiv[1]>>, <<riv[2], tiv[2], fiv[2]>>, <<FALSE, FALSE, fiv[2] - fiv[1] = 24>>)
 FluxSphere == UNION {{SphCell("sphere", <<Sph(sc[1], IdM, Zero3, P1)>>, SphChart(IdM, Zero3), Pos(Iv(rt, 0, 2 * sc[1], sc[2])), t, f)
@@ -115,7 +125,7 @@ FluxCircle == UNION {{CylCell("circle", <<Cir(sc[1], IdM, Zero3, 2)>>, CylChart(
                           : rt \in RadTags, f \in AzIv, zt \in {"in", "out"}} : sc \in Scales}
 FluxPolyline == UNION {{BoxCell("polyline", <<Pol(v, IdM, Zero3, 3)>>, Id0, <<<<-2 * sc[1], 2 * sc[1]>>, <<-2 * sc[1], 2 * sc[1]>>, <<-sc[1], sc[1]>>>>, sc[2], pat)
                           : pat \in {<<"enc", "enc", "enc">>, <<"out", "in", "in">>, <<"in", "in", "out">>, <<"out", "out", "out">>, <<"in", "in", "in">>},
-                            v \in {SquareV(sc[1]), HexV(sc[1])}} : sc \in Scales}
+                            v \in {SquareV(sc[1]), HexV(sc[1]), StepV(sc[1])}} : sc \in Scales}
 \* collections: chart adapted to several bodies at once, other members enclosed or away
 FluxColl ==
   UNION {{BoxCell("coll:cuboid+cuboid", <<Cub(sc[1], IdM, Zero3, P1), Cub(sc[1], Rx90, <<2 * sc[1] + 1, sc[1], 0>>, P2)>>, Id0,
@@ -177,6 +187,8 @@ CartLk ==
      \* rectangles around one side of the square, through its interior, beside it (odd coordinates: never touch the even wire)
      {Circ("lk:polyline", <<Sq1>>, Id0, RectLoop(k, c, a[1], a[2], b[1], b[2])) : k \in 1..3, c \in {1, 5}, a \in {<<-1, 3>>, <<1, 5>>, <<-5, 5>>}, b \in {<<-1, 1>>, <<-3, 3>>}}
   \cup {Circ("lk:polyline", <<Hex2>>, Id0, RectLoop(k, c, a[1], a[2], b[1], b[2])) : k \in 1..3, c \in {1}, a \in {<<-1, 7>>, <<1, 5>>, <<-9, 9>>}, b \in {<<-1, 3>>, <<-7, 7>>}}
+     \* a wire with segments along all three local axes: loops around its z-parallel and y-parallel segments
+  \cup {Circ("lk:polyline", <<Pol(StepV(1), IdM, Zero3, 2)>>, Id0, RectLoop(k, c, a[1], a[2], b[1], b[2])) : k \in 1..3, c \in {1}, a \in {<<-5, -1>>, <<1, 3>>, <<-5, 7>>}, b \in {<<1, 3>>, <<-3, 5>>}}
      \* triangles and a non-planar pentagon in general position
   \cup {Circ("lk:polyline", <<Sq1>>, Id0, PolyLoop(v)) : v \in {<<<<1, 1, -3>>, <<5, 1, 1>>, <<1, -1, 3>>>>, <<<<1, 1, -1>>, <<3, 5, 3>>, <<5, 1, -3>>>>,
                                                               <<<<1, 1, 1>>, <<3, 1, 1>>, <<3, 1, -1>>, <<1, -1, -3>>, <<-1, 3, -1>>>>}}
@@ -192,7 +204,130 @@ CartBig == \* size ratios up to 1e2 and down to 1e-2 (no moves)
   \cup {Circ("circle", <<Cir(A, IdM, Zero3, 2)>>, Id0, RectLoop(2, 1, 2 * A - w, 2 * A + 2 * w + 1, -w, 2 * w + 1)) : A \in {1, 50}, w \in {1, 100}}
 
 (* ------------------------------------------------------------------------------ the state machine *)
-Candidates == IF Prop = "C14" THEN C14Flux \cup C14CircChart \cup CartLk \cup CartBig ELSE {}
+(* ============================================================ C01: branch-coverage family + point laws *)
+(* Cells and loops STRADDLING every documented value-dependent switch of every formula (listed with file:line at   *)
+(* Integral!Switch), on both sides, inside and outside the body, at relative sizes 1e-3 .. 1e3.  The family name   *)
+(* is "<class>|<switch surface>|<side>" and is reported in `where` of a rejection.                                 *)
+Nm(cls, surf, side) == cls \o "|" \o surf \o "|" \o side
+\* <<A, w>> for the switch family: cell width / body size from 1e-3 to 1
+SwScales == IF Thorough THEN {<<1, 1>>, <<5, 1>>, <<50, 1>>, <<500, 1>>} ELSE {<<1, 1>>, <<50, 1>>, <<500, 1>>}
+\* interval far away from the body (distance D body sizes), width comparable to the distance / 8
+FarIv(s1, s2, D) == <<s2 + D * (s2 - s1), s2 + D * (s2 - s1) + Max2(3, (D * (s2 - s1)) \div 8)>>
+NamedBox(name, scene, ch, iv) == Flux(name, scene, ch, <<iv[1][1], iv[2][1], iv[3][1]>>, <<iv[1][2], iv[2][2], iv[3][2]>>, FFF)
+\* --- Cuboid / box mesh: octant planes through the centre ("in" straddles them), face planes, edge extensions; near and far
+CubS(A) == <<<<-2 * A, 2 * A>>, <<-3 * A, 3 * A>>, <<-4 * A, 4 * A>>>>
+SwBoxPat == {<<"octant planes", "inside", <<"in", "in", "in">>>>, <<"face+octant planes", "across the face", <<"hi", "in", "in">>>>,
+             <<"face+octant planes", "across the face", <<"in", "lo", "in">>>>, <<"edge+octant plane", "across an edge", <<"hi", "hi", "in">>>>,
+             <<"corner", "across a corner", <<"hi", "lo", "hi">>>>, <<"octant planes", "outside near", <<"out", "in", "in">>>>,
+             <<"edge extension", "outside near", <<"out", "hi", "in">>>>, <<"edge extension", "outside near", <<"hi", "out", "lo">>>>,
+             <<"face plane extension", "outside near", <<"out", "out", "hi">>>>}
+SwBox(cls, mk(_)) ==
+  UNION {{BoxCell(Nm(cls, q[1], q[2]), <<mk(sc[1])>>, Id0, CubS(sc[1]), sc[2], q[3]) : q \in SwBoxPat} : sc \in SwScales}
+  \cup UNION {{NamedBox(Nm(cls, "octant planes", "far"), <<mk(1)>>, Id0, <<Iv("in", -2, 2, D), FarIv(-3, 3, D), Iv("in", -4, 4, D)>>),
+               NamedBox(Nm(cls, "face plane extension", "far"), <<mk(1)>>, Id0, <<Iv("hi", -2, 2, D), FarIv(-3, 3, D), FarIv(-4, 4, D)>>),
+               NamedBox(Nm(cls, "edge extension", "far"), <<mk(1)>>, Id0, <<Iv("hi", -2, 2, D), Iv("hi", -3, 3, D), FarIv(-4, 4, D)>>)} : D \in {10, 100}}
+SwCuboid == SwBox("Cuboid", LAMBDA A : Cub(A, IdM, Zero3, P1)) \cup SwBox("TriangularMesh", LAMBDA A : Mesh(A, IdM, Zero3, P2))
+\* loops through the same switches (H is a gradient field: circulation 0 through the octant planes, faces and edges extensions)
+SwCuboidLoops == UNION {BodyRects(Nm("Cuboid", "octant+face planes", "loop"), <<Cub(sc[1], IdM, Zero3, P1)>>, Id0, CubS(sc[1]), sc[2], {<<1, 0>>, <<2, 1>>, <<3, 2 * sc[1]>>}) : sc \in SwScales}
+\* --- Cylinder with 40 | d: r/r0 = 0.05 is the lattice value r = A; hull r = 20 A; bases z = +-10 A
+Cyl40(A, pol) == Src("Cylinder", IdM, Zero3, <<40 * A, 20 * A>>, pol, <<>>)
+SwCylinder ==
+  UNION {{CylCell(Nm("Cylinder", "r/r0=0.05", "inside"), <<Cyl40(A, pol)>>, CylChart(IdM, Zero3), <<A - w, A + 2 * w>>, f, Iv("in", -10 * A, 10 * A, w)),
+                 CylCell(Nm("Cylinder", "r/r0=0.05 and base", "across the base"), <<Cyl40(A, pol)>>, CylChart(IdM, Zero3), <<A - w, A + 2 * w>>, f, Iv("hi", -10 * A, 10 * A, w)),
+                 CylCell(Nm("Cylinder", "r/r0=0.05", "outside near"), <<Cyl40(A, pol)>>, CylChart(IdM, Zero3), <<A - w, A + 2 * w>>, f, Iv("out", -10 * A, 10 * A, 3 * w)),
+                 CylCell(Nm("Cylinder", "r/r0=0.05", "outside far"), <<Cyl40(A, pol)>>, CylChart(IdM, Zero3), <<A - w, A + 2 * w>>, f, FarIv(-10 * A, 10 * A, 10)),
+                 CylCell(Nm("Cylinder", "hull r=r0", "inside z-range"), <<Cyl40(A, pol)>>, CylChart(IdM, Zero3), <<20 * A - w, 20 * A + 2 * w>>, f, Iv("in", -10 * A, 10 * A, w)),
+                 CylCell(Nm("Cylinder", "rim", "across the rim"), <<Cyl40(A, pol)>>, CylChart(IdM, Zero3), <<20 * A - w, 20 * A + 2 * w>>, f, Iv("hi", -10 * A, 10 * A, w)),
+                 CylCell(Nm("Cylinder", "hull extension r=r0", "outside z-range"), <<Cyl40(A, pol)>>, CylChart(IdM, Zero3), <<20 * A - w, 20 * A + 2 * w>>, f, Iv("out", -10 * A, 10 * A, w)),
+                 CylCell(Nm("Cylinder", "hull extension r=r0", "far"), <<Cyl40(A, pol)>>, CylChart(IdM, Zero3), <<20 * A - w, 20 * A + 2 * w>>, f, FarIv(-10 * A, 10 * A, 10)),
+                 CylCell(Nm("Cylinder", "base plane extension |z|=z0", "outside hull"), <<Cyl40(A, pol)>>, CylChart(IdM, Zero3), <<20 * A + w, 20 * A + 4 * w>>, f, Iv("hi", -10 * A, 10 * A, w)),
+                 CylCell(Nm("Cylinder", "axis r=0", "inside"), <<Cyl40(A, pol)>>, CylChart(IdM, Zero3), <<0, 3 * w>>, <<0, 24>>, Iv("in", -10 * A, 10 * A, w))}
+                : f \in {<<1, 4>>, <<0, 24>>}, pol \in {P1, P3}, A \in {1, 2, 25}, w \in {1}}
+  \cup UNION {{CylCell(Nm("Cylinder", "r/r0=0.05", "inside"), <<Cyl40(A, P1)>>, CylChart(IdM, Zero3), <<A - w, A + 2 * w>>, <<-5, 2>>, Iv("in", -10 * A, 10 * A, w))} : A \in {25}, w \in {10}}
+SwCylinderLoopsA(A) ==
+  UNION {{Circ(Nm("Cylinder", "r/r0=0.05 and axis", "loop"), <<Cyl40(A, P1)>>, CylChart(IdM, Zero3), CoordRect(2, f, Iv(t, -10 * A, 10 * A, 1), <<0, 3 * A>>)),
+          Circ(Nm("Cylinder", "r/r0=0.05", "loop"), <<Cyl40(A, P1)>>, CylChart(IdM, Zero3), CoordRect(3, z, <<1, 4 * A>>, <<-5, 2>>)),
+          Circ(Nm("Cylinder", "hull and base", "loop"), <<Cyl40(A, P1)>>, CylChart(IdM, Zero3), CoordRect(2, f, Iv(t, -10 * A, 10 * A, A), <<19 * A, 22 * A>>))}
+         : f \in {1, -7}, t \in {"in", "hi", "out"}, z \in {1, 11 * A}}
+SwCylinderLoops == UNION {SwCylinderLoopsA(A) : A \in {1, 25}}
+\* --- CylinderSegment: case surfaces r = r_i (everywhere), phi = phi_j + n pi (both half planes), z = z_k (everywhere), axis
+SwSegDim(A) == <<2 * A, 4 * A, 4 * A, 1, 7>>            \* 15 .. 105 degrees; switch half planes at 15, 105, 195, 285 degrees
+SwSegment ==
+  UNION {{CylCell(Nm("CylinderSegment", q[1], q[2]), <<Seg(SwSegDim(A), IdM, Zero3, P1)>>, CylChart(IdM, Zero3), q[3], q[4], q[5])
+           : q \in {<<"r=r1, phi=phi2", "across the inner corner", <<2 * A - 1, 2 * A + 2>>, <<6, 9>>, Iv("in", -2 * A, 2 * A, 1)>>,
+                    <<"r=r2 extension", "above the body", <<4 * A - 1, 4 * A + 2>>, <<3, 5>>, Iv("out", -2 * A, 2 * A, 1)>>,
+                    <<"phi=phi1+pi", "opposite half plane", <<2 * A + 1, 2 * A + 3>>, <<12, 15>>, Iv("in", -2 * A, 2 * A, 1)>>,
+                    <<"z=z2 extension", "outside r2", <<4 * A + 1, 4 * A + 3>>, <<3, 5>>, Iv("hi", -2 * A, 2 * A, 1)>>,
+                    <<"r=r1 extension", "inside the bore", <<2 * A - 1, 2 * A + 2>>, <<9, 11>>, Iv("out", -2 * A, 2 * A, 1)>>}}
+         : A \in IF Thorough THEN {2, 20} ELSE {2}}
+SwSegmentLoops ==
+  UNION {{Circ(Nm("CylinderSegment", "all r/z case surfaces", "loop"), <<Seg(SwSegDim(A), IdM, Zero3, P2)>>, CylChart(IdM, Zero3), CoordRect(2, f, <<-3 * A, 4 * A>>, <<A, 5 * A>>)),
+          Circ(Nm("CylinderSegment", "all phi case surfaces", "loop"), <<Seg(SwSegDim(A), IdM, Zero3, P2)>>, CylChart(IdM, Zero3), Ring(3 * A, z)),
+          Circ(Nm("CylinderSegment", "all phi case surfaces", "loop"), <<Seg(SwSegDim(A), IdM, Zero3, P2)>>, CylChart(IdM, Zero3), Ring(5 * A, z)),
+          Circ(Nm("CylinderSegment", "axis r=0", "loop with an edge on the axis"), <<Seg(SwSegDim(2 * A), IdM, Zero3, P2)>>, CylChart(IdM, Zero3), CoordRect(2, f, <<-A, 2 * A>>, <<0, 6 * A>>)),
+          Circ(Nm("CylinderSegment", "far", "loop"), <<Seg(SwSegDim(A), IdM, Zero3, P2)>>, CylChart(IdM, Zero3), CoordRect(2, f, <<400 * A, 400 * A + 50>>, <<400 * A, 400 * A + 50>>))}
+         : A \in {1}, f \in {3, 13}, z \in {1, 3}}
+\* --- Sphere: r = r0
+SwSphere == UNION {{SphCell(Nm("Sphere", "r=r0", "across the surface"), <<Sph(sc[1], IdM, Zero3, P1)>>, SphChart(IdM, Zero3), Iv("hi", 0, 2 * sc[1], sc[2]), t, f)
+                      : t \in PolIv, f \in AzIv} : sc \in SwScales}
+\* --- Circle: axis branch r = 0 (a loop edge ON the axis uses it for every node), loop plane z = 0
+SwCircle ==
+  UNION {{Circ(Nm("Circle", "axis r=0 (edge on the axis)", "linking loop"), <<Cir(A, IdM, Zero3, 2)>>, CylChart(IdM, Zero3), CoordRect(2, f, <<-w, 2 * w>>, <<0, 2 * A + w>>)),
+          Circ(Nm("Circle", "axis r=0 (edge on the axis)", "unlinked loop"), <<Cir(A, IdM, Zero3, 2)>>, CylChart(IdM, Zero3), CoordRect(2, f, <<-w, 2 * w>>, <<0, A>>)),
+          Circ(Nm("Circle", "loop plane z=0", "unlinked loop"), <<Cir(A, IdM, Zero3, 2)>>, CylChart(IdM, Zero3), CoordRect(2, f, <<-w, 2 * w>>, <<2 * A + w, 2 * A + 4 * w>>)),
+          CylCell(Nm("Circle", "axis and loop plane", "rod around the axis"), <<Cir(A, IdM, Zero3, 2)>>, CylChart(IdM, Zero3), <<0, Min2(w, A)>>, <<0, 24>>, <<-w, 2 * w>>),
+          CylCell(Nm("Circle", "loop plane z=0", "outside the loop"), <<Cir(A, IdM, Zero3, 2)>>, CylChart(IdM, Zero3), <<2 * A + w, 2 * A + 4 * w>>, <<1, 4>>, <<-w, 2 * w>>)}
+         : A \in {1, 50, 500}, w \in {1, 100}, f \in {0, 5}}
+\* --- Polyline: planes through the end points perpendicular to a segment, segment extension lines, the wire itself (loops)
+SwPolyline ==
+  UNION {{NamedBox(Nm("Polyline", "end-point plane + extension line", "beyond a corner"), <<Pol(SquareV(A), IdM, Zero3, 3)>>, Id0, <<<<2 * A + w, 2 * A + 4 * w>>, <<2 * A - w, 2 * A + 2 * w>>, <<-w, 2 * w>>>>),
+          NamedBox(Nm("Polyline", "end-point plane", "beside a segment"), <<Pol(SquareV(A), IdM, Zero3, 3)>>, Id0, <<<<2 * A + w, 2 * A + 4 * w>>, <<-2 * A - w, -2 * A + 2 * w>>, <<w, 4 * w>>>>),
+          NamedBox(Nm("Polyline", "end-point planes", "inside the loop"), <<Pol(SquareV(A), IdM, Zero3, 3)>>, Id0, <<<<-w, 2 * w>>, <<-w, 2 * w>>, <<-w, 2 * w>>>>),
+          Circ(Nm("Polyline", "wire axis", "loop around one segment"), <<Pol(SquareV(A), IdM, Zero3, 3)>>, Id0, RectLoop(2, 1, 2 * A - w, 2 * A + 2 * w + 1, -w, 2 * w + 1)),
+          Circ(Nm("Polyline", "end-point plane", "loop around a corner"), <<Pol(SquareV(A), IdM, Zero3, 3)>>, Id0, RectLoop(2, 2 * A - 1, 2 * A - w, 2 * A + 2 * w + 1, -w, 2 * w + 1)),
+          Circ(Nm("Polyline", "extension line", "loop around the extension"), <<Pol(SquareV(A), IdM, Zero3, 3)>>, Id0, RectLoop(2, 2 * A + 1, 2 * A - w, 2 * A + 2 * w + 1, -w, 2 * w + 1))}
+         : A \in {1, 50}, w \in {1, 9}}
+  \cup UNION {{Circ(Nm("Polyline", "wire axis (z-parallel segment)", "loop around one segment"), <<Pol(StepV(A), IdM, Zero3, 2)>>, Id0, RectLoop(3, 1, -2 * A - w, -2 * A + w + 2, 2 * A - w, 2 * A + w + 1)),
+                Circ(Nm("Polyline", "end-point plane (z-parallel segment)", "loop above the segment"), <<Pol(StepV(A), IdM, Zero3, 2)>>, Id0, RectLoop(3, 2 * A + 1, -2 * A - w, -2 * A + w + 2, 2 * A - w, 2 * A + w + 1)),
+                Circ(Nm("Polyline", "wire axis (y-parallel segment)", "loop around one segment"), <<Pol(StepV(A), IdM, Zero3, 2)>>, Id0, RectLoop(2, 1, 2 * A - w, 2 * A + w + 1, -2 * A - w, -2 * A + w + 2)),
+                NamedBox(Nm("Polyline", "end-point planes (z-parallel segment)", "beside the segment"), <<Pol(StepV(A), IdM, Zero3, 2)>>, Id0, <<<<-2 * A - 4 * w, -2 * A - w>>, <<2 * A - w, 2 * A + 2 * w>>, <<-w, 2 * w>>>>)}
+               : A \in {1, 50}, w \in {1}}
+\* --- Triangle (charged sheet): its plane outside the sheet, edge lines and their extensions; loops through the sheet
+TriV(A) == <<<<0, 0, 0>>, <<12 * A, 0, 0>>, <<3 * A, 12 * A, 0>>>>
+Tri(A, pol) == Src("Triangle", IdM, Zero3, <<>>, pol, TriV(A))
+TriChart(A) == Chart("aff", IdM, Zero3, <<0, 0, 0>>, <<<<12 * A, 0, 0>>, <<3 * A, 12 * A, 0>>, <<0, 0, 12 * A>>>>, 12 * A)
+SwTriangle ==
+  UNION {{NamedBox(Nm("Triangle", "triangle plane", "outside the sheet"), <<Tri(A, P1)>>, TriChart(A), <<<<-4 * w, -w>>, <<w, 4 * w>>, <<-w, 2 * w>>>>),
+          NamedBox(Nm("Triangle", "edge extension line", "beyond a vertex"), <<Tri(A, P1)>>, TriChart(A), <<<<-w, 2 * w>>, <<12 * A + w, 12 * A + 4 * w>>, <<-w, 2 * w>>>>),
+          NamedBox(Nm("Triangle", "above the sheet", "near"), <<Tri(A, P1)>>, TriChart(A), <<<<w, 4 * w>>, <<w, 4 * w>>, <<w, 4 * w>>>>),
+          Circ(Nm("Triangle", "through the sheet", "loop"), <<Tri(A, P1)>>, TriChart(A), CoordRect(2, 2 * w, <<-w, 2 * w>>, <<w, 5 * w>>)),
+          Circ(Nm("Triangle", "edge line", "loop around an edge"), <<Tri(A, P1)>>, TriChart(A), CoordRect(2, 2 * w, <<-w, 2 * w>>, <<-2 * w, 3 * w>>)),
+          Circ(Nm("Triangle", "edge extension line", "loop around the extension"), <<Tri(A, P1)>>, TriChart(A), CoordRect(2, 12 * A + 2 * w, <<-w, 2 * w>>, <<-2 * w, 3 * w>>))}
+         : A \in {1, 50}, w \in {1}}
+\* --- Tetrahedron: face planes inside / outside the face, edge extensions (all four anchors)
+SwTetra ==
+  UNION {UNION {{BoxCell(Nm("Tetrahedron", q[1], q[2]), <<Tet(sc[1], IdM, Zero3, P1)>>, TetChart(sc[1], IdM, Zero3, i0), TetS(sc[1]), sc[2], q[3])
+            : q \in {<<"face plane", "across the face", <<"lo", "nr", "nr">>>>, <<"edge", "across an edge", <<"nr", "lo", "lo">>>>, <<"vertex", "around a vertex", <<"lo", "lo", "lo">>>>,
+                     <<"face plane extension", "outside", <<"lo", "out", "nr">>>>, <<"edge extension", "beyond a vertex", <<"out", "lo", "lo">>>>, <<"inside", "inside", <<"nr", "nr", "nr">>>>}}
+            : i0 \in 1..4} : sc \in {<<1, 1>>, <<50, 1>>}}
+C01Cells == SwCuboid \cup SwCuboidLoops \cup SwCylinder \cup SwCylinderLoops \cup SwSegment \cup SwSegmentLoops \cup SwSphere \cup SwCircle \cup SwPolyline \cup SwTriangle \cup SwTetra
+
+\* --- point laws: integer offsets with integer norm (scaled Pythagorean quadruples, all on-axis directions included)
+Quads == {<<<<0, 0, 1>>, 1>>, <<<<1, 0, 0>>, 1>>, <<<<0, -1, 0>>, 1>>, <<<<1, 2, 2>>, 3>>, <<<<-2, 1, 2>>, 3>>, <<<<2, 3, -6>>, 7>>, <<<<0, 3, 4>>, 5>>, <<<<-4, 0, 3>>, 5>>,
+          <<<<1, -4, 8>>, 9>>, <<<<4, 4, 7>>, 9>>, <<<<6, -2, -9>>, 11>>, <<<<3, 4, 12>>, 13>>}
+Off(q, k) == [r |-> Scale3(k, q[1]), rho |-> k * q[2]]
+PtDipole == {Point(Nm("Dipole", "closed form", "k=" \o ToString(k)), Dip(R, p, m), "dipole", Add3(p, Off(q, k).r), f, Off(q, k).rho)
+               : q \in Quads, k \in {1, 10, 100}, f \in {"B", "H"}, m \in {P1, P2}, R \in {IdM, Rx90}, p \in {<<1, -2, 3>>}}
+PtSphere == {Point(Nm("Sphere", "closed form outside", "k=" \o ToString(k)), Sph(A, R, p, m), "sphere_out", Add3(p, Off(q, k).r), f, Off(q, k).rho)
+               : q \in Quads, k \in {1, 10, 100}, f \in {"B", "H"}, m \in {P1}, R \in {IdM, Rz90}, p \in {<<1, -2, 3>>}, A \in {1, 4}}
+       \cup {Point(Nm("Sphere", "closed form inside", "k=" \o ToString(k)), Sph(A, R, p, m), "sphere_in", Add3(p, Off(q, k).r), f, Off(q, k).rho)
+               : q \in Quads, k \in {1, 3}, f \in {"B", "H"}, m \in {P1, P2}, R \in {IdM, Ry90}, p \in {<<1, -2, 3>>}, A \in {30}}
+FarSrcs == {Cub(1, Rx90, <<1, 0, -1>>, P1), Mesh(1, IdM, Zero3, P2), Cyl(1, Ry90, Zero3, P1), Seg(<<1, 3, 4, 0, 6>>, IdM, Zero3, P1), Seg(<<0, 2, 2, -3, 9>>, Rz90, Zero3, P2),
+            Seg(<<1, 2, 2, 0, 24>>, IdM, Zero3, P1), Sph(1, IdM, Zero3, P2), Tet(1, IdM, Zero3, P1), Dip(Rx90, Zero3, P1), Cir(1, Rx90, Zero3, 2), Pol(SquareV(1), Ry90, Zero3, 3), Pol(HexV(1), IdM, Zero3, -2), Pol(StepV(1), Rx90, Zero3, 1)}
+PtFar == {Point(Nm(s.cls, "far field", "k=" \o ToString(k)), s, "far", Add3(s.p, Off(q, k).r), f, Off(q, k).rho)
+            : s \in FarSrcs, q \in Quads, k \in {150, 300, 1200, 3600}, f \in {"B", "H"}}
+C01Points == PtDipole \cup PtSphere \cup PtFar
+Candidates == IF Prop = "C14" THEN C14Flux \cup C14CircChart \cup CartLk \cup CartBig ELSE C01Cells \cup C01Points
 \* Conditioning of the measurement (not part of the premise; it only selects which instances are worth integrating with a
 \* fixed-order rule): the cell is not a thin slab, and a cell that touches a body is not much larger than the body
 \* (otherwise single quadrature pieces would span decades of the field's variation and the instance would be unmeasurable).
@@ -204,12 +339,12 @@ BodyScale(s) ==
     [] s.cls \in {"Sphere", "Circle"} -> s.dim[1]
     [] s.cls = "Dipole" -> 1
     [] OTHER -> LET b == LocalBox(s) IN SetMax({b.hi[k] - b.lo[k] : k \in 1..3})
-BodyMaxExt(s) == LET b == LocalBox(s) IN Max2(1, SetMax({b.hi[k] - b.lo[k] : k \in 1..3}))
 \* surfaces of s parallel to the cell faces of axis k: coordinate surfaces if adapted, else the faces of its bounding box (cart cells)
-ParSurf(s, ch, k) == IF Adapted(s, ch) THEN Surf(s, ch)[k]
+ParSurf(s, ch, k) == IF s.cls \in Magnets /\ Adapted(s, ch) THEN Surf(s, ch)[k]
+                     ELSE IF s.cls = "Circle" /\ Adapted(s, ch) THEN <<{s.dim[1] \div 2}, {}, {0}>>[k]
                      ELSE IF ch.type = "cart" THEN LET b == FrameBox(ch, SrcBox(s)) IN {b.lo[k], b.hi[k]} ELSE {}
 Conditioned(i) ==
-  i.law = "circ" \/
+  i.law \in {"circ", "point"} \/
   LET ext == {i.hi[k] - i.lo[k] : k \in LinAxes(i.ch)} IN
   /\ SetMax(ext) <= 8 * SetMin(ext)
   /\ \A k \in DOMAIN i.scene : (~Away(i.scene[k], i.ch, i.lo, i.hi) /\ ~Enclosed(i.scene[k], i.ch, i.lo, i.hi, i.full)) => SetMax(ext) <= 4 * BodyScale(i.scene[k])
@@ -227,7 +362,7 @@ Init == /\ inst \in Base
 Move(Q, t) == /\ Movable(inst)
               /\ inst' = [inst EXCEPT !.scene = MoveScene(Q, t, inst.scene), !.ch = MoveChart(Q, t, inst.ch)]
               /\ der' = Derived(inst')
-MaxMoves == IF Thorough THEN 7 ELSE 2          \* 7 >= diameter of the rotation group in these generators + the shift
+MaxMoves == IF Thorough THEN 7 ELSE 1          \* 7 >= diameter of the rotation group in these generators + the shift
 Next == \/ \E Q \in Gens : hist.nmv < MaxMoves /\ Move(Q, Zero3) /\ hist' = [hist EXCEPT !.nmv = @ + 1, !.rot = TRUE]
         \/ \E t \in Shifts : ~hist.rot /\ hist.nmv = 0 /\ Move(IdM, t) /\ hist' = [hist EXCEPT !.nmv = 1]
         \/ /\ inst.law = "circ" /\ hist.sgn = 1 /\ (Thorough \/ Movable(inst))
